@@ -1,10 +1,10 @@
 (* C17 model runner.  One case per line:
-   <id> T|A|W|U|u <pred> <maxretry> <minw> <maxw> <tbl> <dflt> <cancel> <bodykind> <hexbody> <script> <opts>
+   <id> T|A|W|V|U|u|X <pred>    (V: auth client, token for the request's own scope cached: same re-send structure as A) <maxretry> <minw> <maxw> <tbl> <dflt> <cancel> <bodykind> <hexbody> <script> <opts>
         opts    harness-only options the code under test must not depend on (u = ContentLength left
                 unknown, method=..., preauth = auth client stack with Authorization preset); ignored here
         tbl     comma separated integers, or -
         cancel  - | <tc>:c | <tc>:d
-        bodykind [M|m]N | R | O | G<k>      (prefix M = manifest push through an auth client, m = through another client)
+        bodykind [M|m]N | B (http.NoBody, no GetBody) | R | O | G<k>      (prefix M/m = manifest push through an auth / another client, I/i = the same with an indexed manifest type)
         pred    - (DefaultPredicate) | <code><R|S|F>,...;d<R|S|F>;e<R|S|F>  (status table; other statuses; transport errors)
         script  beh;beh;... or -   beh = <out>/<read>/<lat>  read = * | <k>
                 out = S<code>:<hexRetryAfter>:<chal> | E<isnet><timeout><temporary>[:shape] | TO (=E111) | ER (=E000)
@@ -68,6 +68,7 @@ let parse_cancel (s : string) : cancel =
 let parse_kind (s : string) : bodykind =
   match s.[0] with
   | 'N' -> KNone
+  | 'B' -> KNoBody
   | 'R' -> KReplay
   | 'O' -> KOneShot
   | 'G' -> KGetBodyErr (nat_of_int (int_of_string (String.sub s 1 (String.length s - 1))))
@@ -131,20 +132,27 @@ let guarded = exp_backoff_guarded
 let () =
   iter_lines (fun l ->
     match split_ws l with
-    | [id; ("T" | "A" | "W" | "U" | "u") as op; pred; mr; mn; mx; tbl; dflt; cn; kind; body; script; _opts] ->
+    | [id; ("T" | "A" | "W" | "V" | "U" | "u" | "X") as op; pred; mr; mn; mx; tbl; dflt; cn; kind; body; script; _opts] ->
       let p = table_policy (parse_pred pred) (z_of_string mr) (z_of_string mn) (z_of_string mx)
           (List.map z_of_string (split_on ',' tbl)) (z_of_string dflt) in
+      (* M/m: manifest push (type without subject) through an auth / another client;
+         I/i: the same with an OCI image manifest (read into memory by pushWithIndexing) *)
       let manifest, kind' =
-        if kind.[0] = 'M' then Some true, String.sub kind 1 (String.length kind - 1)
-        else if kind.[0] = 'm' then Some false, String.sub kind 1 (String.length kind - 1)
-        else None, kind in
+        match kind.[0] with
+        | 'M' | 'm' | 'I' | 'i' -> Some kind.[0], String.sub kind 1 (String.length kind - 1)
+        | _ -> None, kind in
       let bd0 = { bk = parse_kind kind'; bdata = str_of_hex body } in
-      let bd = match manifest with Some a -> manifest_push_body a bd0 | None -> bd0 in
+      let bd = match manifest with
+        | Some 'M' -> manifest_push_body true bd0
+        | Some 'm' -> manifest_push_body false bd0
+        | Some _ -> indexed_manifest_push_body bd0
+        | None -> bd0 in
       let sc = List.map parse_beh (split_on ';' script) in
       let cn = parse_cancel cn in
-      if op = "U" || op = "u" then begin
-        (* blob push through the Repository: U = auth client, u = plain retrying client *)
-        let u = blob_push (op = "U") p cn bd sc in
+      if op = "U" || op = "u" || op = "X" then begin
+        (* blob push through the Repository: U = auth client, u = plain retrying client,
+           X = auth client whose cache already holds the token for the push's scope *)
+        let u = blob_push_gen (op <> "u") (op = "X") p cn bd sc in
         let atts a = show_attempts_list bd.bdata a in
         let put1, put2 = match u.u_put with
           | Some a -> atts (attempts a.a_first), atts (attempts a.a_second)
